@@ -277,9 +277,9 @@ Qed.
 Lemma wtu_quiet : forall s, rx_ok s ->
   s_remote_last_ack s = Some (tcp_window_start s) ->
   s_remote_last_win s = tcp_scaled_window s ->
-  tcp_window_to_update s = Ok false \/ tcp_window_to_update s = Ok false.
+  tcp_window_to_update s = Ok false.
 Proof.
-  intros s Hrx Ha Hwn. left.
+  intros s Hrx Ha Hwn.
   destruct (scaled_window_bounds s Hrx) as (Hb1 & Hb2 & Hb3).
   unfold tcp_window_to_update, tcp_last_scaled_window. rewrite Ha, Hwn.
   unfold tcp_window_start at 1 2.
@@ -308,7 +308,7 @@ Lemma B_acked : forall s, rx_ok s ->
 Proof.
   intros s Hrx Ha Hw. unfold m_B, wtu_on. rewrite (att_quiet s Ha). cbn [orb].
   destruct Hw as [Hw|[Hw|Hw]].
-  - destruct (wtu_quiet s Hrx Ha Hw) as [-> | ->]; reflexivity.
+  - rewrite (wtu_quiet s Hrx Ha Hw). reflexivity.
   - unfold tcp_window_to_update. rewrite Hw. destruct (s_syn_unacked_in_fin_wait s); reflexivity.
   - unfold tcp_window_to_update. rewrite Hw. reflexivity.
 Qed.
